@@ -41,6 +41,7 @@ class ScramServer:
         self.impostor = impostor
         self.mechanisms = tuple(mechanisms)
         self.sessions = []
+        self.replay = None  # [server-first bytes, server-final bytes] recorded from an earlier exchange
 
     def new_session(self, mech, conn):
         s = ScramSession(self, mech)
@@ -60,9 +61,22 @@ class ScramSession:
         self.nonce = None
         self.user = None
         self.completed_exchange = False
+        self.sent = []
 
     def step(self, payload):
         """-> (ok, bytes_to_send, done)"""
+        if self.server.replay is not None:
+            # a peer that knows nothing but a recorded exchange: it answers every client
+            # message with the bytes an honest server once sent to (it hopes) the same client
+            msg = self.server.replay[min(self.state, 1)]
+            self.state += 1
+            self.completed_exchange = self.state >= 2
+            return True, msg, self.state >= 2
+        out = self._step(payload)
+        self.sent.append(out[1])
+        return out
+
+    def _step(self, payload):
         srv = self.server
         w = srv.world
         try:
